@@ -12,6 +12,7 @@
   shows the decoder/encoder pair reproduces them).
 -/
 import HugrVerif.Proofs.OpsCodec
+import HugrVerif.Inhabits
 
 set_option linter.unusedSimpArgs false
 set_option linter.unusedVariables false
@@ -244,5 +245,309 @@ theorem abs_params (f : Nat) (js : List Json) (ps : List TypeParam) (h : js.mapM
     js ps h (fun x _ y hy => by rw [abs_param f x y hy])
   rw [ExceptList.mapM_pure_map] at this
   exact Except.ok.inj this
+
+/-! ### types, rows, type arguments -/
+
+/-- what is proved for all three decoders at a given fuel -/
+def AbsTy (f : Nat) : Prop :=
+  (∀ j t, decTy f j = .ok t → t.isPoly = false ∧ encTy t = .ok (ty f j)) ∧
+  (∀ j ts, decRow f j = .ok ts → ∃ js, encRow ts = .ok js ∧ row f j = .arr js) ∧
+  (∀ j a, decArg f j = .ok a → encArg a = .ok (arg f j))
+
+theorem enc_row_of (f : Nat) (ih : ∀ j t, decTy f j = .ok t → t.isPoly = false ∧ encTy t = .ok (ty f j))
+    (js : List Json) (ts : List Ty) (h : js.mapM (decTy f) = .ok ts) : encRow ts = .ok (js.map (ty f)) := by
+  rw [encRow_eq_mapM]
+  refine ExceptList.mapM_mapM_ok (decTy f) encElem (ty f) js ts h (fun j _ t ht => ?_)
+  obtain ⟨h1, h2⟩ := ih j t ht
+  simp [encElem, h1, h2]
+
+theorem enc_rows_of (f : Nat) (ih : ∀ j ts, decRow f j = .ok ts → ∃ js, encRow ts = .ok js ∧ row f j = .arr js)
+    (js : List Json) (rows : List (List Ty)) (h : js.mapM (decRow f) = .ok rows) :
+    encRows rows = .ok (js.map (row f)) := by
+  rw [encRows_eq_mapM]
+  refine ExceptList.mapM_mapM_ok (decRow f) _ (row f) js rows h (fun j _ ts hts => ?_)
+  obtain ⟨js', h1, h2⟩ := ih j ts hts
+  simp [h1, h2, Except.map]
+
+theorem enc_args_of (f : Nat) (ih : ∀ j a, decArg f j = .ok a → encArg a = .ok (arg f j))
+    (js : List Json) (as : List TypeArg) (h : js.mapM (decArg f) = .ok as) : encArgs as = .ok (js.map (arg f)) := by
+  rw [encArgs_eq_mapM]
+  exact ExceptList.mapM_mapM_ok (decArg f) encArg (arg f) js as h (fun j _ a ha => ih j a ha)
+
+theorem decReqs_ok {kvs : List (String × Json)} {r : List String} (h : decReqs kvs = .ok r) :
+    getD "runtime_reqs" kvs (.arr []) = encStrs r := by
+  unfold decReqs at h
+  unfold getD
+  split at h
+  · rename_i hf; cases h; simp [hf, encStrs]
+  · rename_i j hf; simp [hf, decStrs_ok h]
+
+theorem absTy_zero : AbsTy 0 := by
+  refine ⟨fun j t h => ?_, fun j ts h => ?_, fun j a h => ?_⟩
+  · rw [decTy] at h; cases h
+  · rw [decRow] at h; cases h
+  · rw [decArg] at h; cases h
+
+theorem absTy_succ (f : Nat) (ih : AbsTy f) : AbsTy (f + 1) := by
+  obtain ⟨ihT, ihR, ihA⟩ := ih
+  refine ⟨fun j t h => ?_, fun j ts h => ?_, fun j a h => ?_⟩
+  · -- types
+    rw [decTy] at h
+    simp only [OpProofs.bind_eq_ok] at h
+    obtain ⟨kvs, hj, tj, htj, s, hs, hm⟩ := h
+    rw [asObj_ok] at hj
+    rw [req_ok] at htj
+    rw [asStr_ok] at hs
+    subst hj hs
+    have htag := tagOf_of_field htj
+    split at hm
+    · -- Q
+      cases hm; simp [ty, members, htag, encTy, Ty.isPoly, pure, Except.pure]
+    · -- V
+      simp only [OpProofs.bind_eq_ok, OpProofs.pure_eq_ok] at hm
+      obtain ⟨ji, h1, i, h2, jb, h3, b, h4, rfl⟩ := hm
+      rw [req_ok] at h1 h3
+      have e1 := asNat_ok h2
+      have e2 := decBound_ok h4
+      subst e1 e2
+      simp [ty, members, htag, get_of_field h1, get_of_field h3, encTy, Ty.isPoly, pure, Except.pure]
+    · -- R
+      simp only [OpProofs.bind_eq_ok, OpProofs.pure_eq_ok] at hm
+      obtain ⟨ji, h1, i, h2, jb, h3, b, h4, rfl⟩ := hm
+      rw [req_ok] at h1 h3
+      have e1 := asNat_ok h2
+      have e2 := decBound_ok h4
+      subst e1 e2
+      simp [ty, members, htag, get_of_field h1, get_of_field h3, encTy, Ty.isPoly, pure, Except.pure]
+    · -- I
+      cases hm; simp [ty, members, htag, encTy, Ty.isPoly, pure, Except.pure]
+    · -- G
+      simp only [OpProofs.bind_eq_ok, OpProofs.pure_eq_ok] at hm
+      obtain ⟨ji, h1, i, h2, jo, h3, o, h4, r, h5, rfl⟩ := hm
+      rw [req_ok] at h1 h3
+      obtain ⟨jsi, e1, e2⟩ := ihR _ _ h2
+      obtain ⟨jso, e3, e4⟩ := ihR _ _ h4
+      have e5 := decReqs_ok h5
+      simp [ty, members, htag, get_of_field h1, get_of_field h3, encTy, Ty.isPoly, e1, e2, e3, e4, e5,
+        bind, Except.bind, pure, Except.pure]
+    · -- Sum
+      simp only [OpProofs.bind_eq_ok] at hm
+      obtain ⟨js_, h1, s, h2, hm⟩ := hm
+      rw [req_ok] at h1
+      rw [asStr_ok] at h2
+      subst h2
+      have hs := tagOf_of_field h1
+      split at hm
+      · simp only [OpProofs.bind_eq_ok, OpProofs.pure_eq_ok] at hm
+        obtain ⟨jn, h3, n, h4, rfl⟩ := hm
+        rw [req_ok] at h3
+        have e1 := asNat_ok h4
+        subst e1
+        simp [ty, members, htag, hs, get_of_field h3, encTy, Ty.isPoly, pure, Except.pure]
+      · simp only [OpProofs.bind_eq_ok, OpProofs.pure_eq_ok] at hm
+        obtain ⟨jr, h3, js, h4, rows, h5, rfl⟩ := hm
+        rw [req_ok] at h3
+        rw [asArr_ok] at h4
+        subst h4
+        have e1 := enc_rows_of f ihR js rows h5
+        simp [ty, members, htag, hs, get_of_field h3, items, encTy, Ty.isPoly, e1, bind, Except.bind, pure, Except.pure]
+      · cases hm
+    · -- Opaque
+      simp only [OpProofs.bind_eq_ok, OpProofs.pure_eq_ok] at hm
+      obtain ⟨jid, h1, id, h2, jb, h3, b, h4, ja, h5, js, h6, as, h7, je, h8, e, h9, rfl⟩ := hm
+      rw [req_ok] at h1 h3 h5 h8
+      rw [asStr_ok] at h2 h9
+      rw [asArr_ok] at h6
+      have e2 := decBound_ok h4
+      subst h2 h9 h6 e2
+      have e1 := enc_args_of f ihA js as h7
+      simp [ty, members, htag, get_of_field h1, get_of_field h3, get_of_field h5, get_of_field h8, items, encTy,
+        Ty.isPoly, e1, bind, Except.bind, pure, Except.pure]
+    · -- Alias
+      simp only [OpProofs.bind_eq_ok, OpProofs.pure_eq_ok] at hm
+      obtain ⟨jn, h1, n, h2, jb, h3, b, h4, rfl⟩ := hm
+      rw [req_ok] at h1 h3
+      rw [asStr_ok] at h2
+      have e2 := decBound_ok h4
+      subst h2 e2
+      simp [ty, members, htag, get_of_field h1, get_of_field h3, encTy, Ty.isPoly, pure, Except.pure]
+    · cases hm
+  · -- rows
+    rw [decRow] at h
+    simp only [OpProofs.bind_eq_ok] at h
+    obtain ⟨js, h1, h2⟩ := h
+    rw [asArr_ok] at h1
+    subst h1
+    exact ⟨js.map (ty f), enc_row_of f ihT js ts h2, by simp [row, items]⟩
+  · -- arguments
+    rw [decArg] at h
+    simp only [OpProofs.bind_eq_ok] at h
+    obtain ⟨kvs, hj, tj, htj, s, hs, hm⟩ := h
+    rw [asObj_ok] at hj
+    rw [req_ok] at htj
+    rw [asStr_ok] at hs
+    subst hj hs
+    have htag := tagOf_of_field htj
+    split at hm
+    · -- Type
+      simp only [OpProofs.bind_eq_ok, OpProofs.pure_eq_ok] at hm
+      obtain ⟨jt, h1, t, h2, rfl⟩ := hm
+      rw [req_ok] at h1
+      obtain ⟨e1, e2⟩ := ihT _ _ h2
+      rw [encArg_type_eq]
+      simp [arg, members, htag, get_of_field h1, e1, e2, Except.bind]
+    · -- BoundedNat
+      simp only [OpProofs.bind_eq_ok, OpProofs.pure_eq_ok] at hm
+      obtain ⟨jn, h1, n, h2, rfl⟩ := hm
+      rw [req_ok] at h1
+      rw [asInt_ok] at h2
+      subst h2
+      simp [arg, members, htag, get_of_field h1, encArg, pure, Except.pure]
+    · -- String
+      simp only [OpProofs.bind_eq_ok, OpProofs.pure_eq_ok] at hm
+      obtain ⟨jn, h1, n, h2, rfl⟩ := hm
+      rw [req_ok] at h1
+      rw [asStr_ok] at h2
+      subst h2
+      simp [arg, members, htag, get_of_field h1, encArg, pure, Except.pure]
+    · -- Sequence
+      simp only [OpProofs.bind_eq_ok, OpProofs.pure_eq_ok] at hm
+      obtain ⟨je, h1, js, h2, es, h3, rfl⟩ := hm
+      rw [req_ok] at h1
+      rw [asArr_ok] at h2
+      subst h2
+      have e1 := enc_args_of f ihA js es h3
+      simp [arg, members, htag, get_of_field h1, items, encArg, e1, bind, Except.bind, pure, Except.pure]
+    · -- Extensions
+      simp only [OpProofs.bind_eq_ok, OpProofs.pure_eq_ok] at hm
+      obtain ⟨je, h1, es, h2, rfl⟩ := hm
+      rw [req_ok] at h1
+      have e1 := decStrs_ok h2
+      subst e1
+      simp [arg, members, htag, get_of_field h1, encArg, pure, Except.pure]
+    · -- Variable
+      simp only [OpProofs.bind_eq_ok, OpProofs.pure_eq_ok] at hm
+      obtain ⟨ji, h1, i, h2, jp, h3, p, h4, rfl⟩ := hm
+      rw [req_ok] at h1 h3
+      have e1 := asNat_ok h2
+      subst e1
+      simp [arg, members, htag, get_of_field h1, get_of_field h3, encArg, abs_param f _ _ h4, pure, Except.pure]
+    · cases hm
+
+theorem absTy (f : Nat) : AbsTy f := by
+  induction f with
+  | zero => exact absTy_zero
+  | succ f ih => exact absTy_succ f ih
+
+/-- **Types**: a decoded type encodes to the projection of the document it was decoded from (and is
+    never the polymorphic function type, which is not a member of the `Type` union). -/
+theorem abs_ty (f : Nat) (j : Json) (t : Ty) (h : decTy f j = .ok t) : t.isPoly = false ∧ encTy t = .ok (ty f j) :=
+  (absTy f).1 j t h
+
+theorem abs_row (f : Nat) (j : Json) (ts : List Ty) (h : decRow f j = .ok ts) :
+    ∃ js, encRow ts = .ok js ∧ row f j = .arr js := (absTy f).2.1 j ts h
+
+/-- **Type arguments.** -/
+theorem abs_arg (f : Nat) (j : Json) (a : TypeArg) (h : decArg f j = .ok a) : encArg a = .ok (arg f j) :=
+  (absTy f).2.2 j a h
+
+theorem abs_args (f : Nat) (js : List Json) (as : List TypeArg) (h : js.mapM (decArg f) = .ok as) :
+    encArgs as = .ok (js.map (arg f)) := enc_args_of f (abs_arg f) js as h
+
+theorem abs_rows (f : Nat) (js : List Json) (rows : List (List Ty)) (h : js.mapM (decRow f) = .ok rows) :
+    encRows rows = .ok (js.map (row f)) := enc_rows_of f (abs_row f) js rows h
+
+/-- `SumType` member -/
+theorem abs_sumType (f : Nat) (j : Json) (t : Ty) (h : decSumType f j = .ok t) :
+    t.isSum = true ∧ encTy t = .ok (sumType f j) := by
+  unfold decSumType at h
+  simp only [OpProofs.bind_eq_ok] at h
+  obtain ⟨kvs, hj, hm⟩ := h
+  rw [asObj_ok] at hj
+  subst hj
+  have hm' : (do
+      match ← asStr (← req "s" kvs) with
+      | "Unit" => do pure (Ty.unitSum (← asNat (← req "size" kvs)))
+      | "General" => do pure (Ty.sum (← (← asArr (← req "rows" kvs)).mapM (decRow f)))
+      | _ => throw DecErr.validation) = Except.ok t := by
+    split at hm
+    · exact hm
+    · exact hm
+    · cases hm
+  clear hm
+  simp only [OpProofs.bind_eq_ok] at hm'
+  obtain ⟨js_, h1, s, h2, hm⟩ := hm'
+  rw [req_ok] at h1
+  rw [asStr_ok] at h2
+  subst h2
+  have hs := tagOf_of_field h1
+  split at hm
+  · simp only [OpProofs.bind_eq_ok, OpProofs.pure_eq_ok] at hm
+    obtain ⟨jn, h3, n, h4, rfl⟩ := hm
+    rw [req_ok] at h3
+    have e1 := asNat_ok h4
+    subst e1
+    simp [sumType, members, hs, get_of_field h3, encTy, Ty.isSum, pure, Except.pure]
+  · simp only [OpProofs.bind_eq_ok, OpProofs.pure_eq_ok] at hm
+    obtain ⟨jr, h3, js, h4, rows, h5, rfl⟩ := hm
+    rw [req_ok] at h3
+    rw [asArr_ok] at h4
+    subst h4
+    have e1 := abs_rows f js rows h5
+    simp [sumType, members, hs, get_of_field h3, items, encTy, Ty.isSum, e1, bind, Except.bind, pure, Except.pure]
+  · cases hm
+
+/-- `FunctionType` member -/
+theorem abs_funcType (f : Nat) (j : Json) (i o : List Ty) (r : List String) (h : decFuncType f j = .ok (i, o, r)) :
+    encTy (.function i o r) = .ok (funcType f true j) ∧ encTy (.function i o []) = .ok (funcType f false j) := by
+  unfold decFuncType at h
+  simp only [OpProofs.bind_eq_ok] at h
+  obtain ⟨kvs, hj, hm⟩ := h
+  rw [asObj_ok] at hj
+  subst hj
+  have hm' : (do
+      pure (← decRow f (← req "input" kvs), ← decRow f (← req "output" kvs), ← decReqs kvs)) =
+        (Except.ok (i, o, r) : Except DecErr _) := by
+    split at hm
+    · exact hm
+    · exact hm
+    · cases hm
+  clear hm
+  simp only [OpProofs.bind_eq_ok, OpProofs.pure_eq_ok] at hm'
+  obtain ⟨ji, h1, i', h2, jo, h3, o', h4, r', h5, he⟩ := hm'
+  rw [req_ok] at h1 h3
+  cases he
+  obtain ⟨jsi, e1, e2⟩ := abs_row f _ _ h2
+  obtain ⟨jso, e3, e4⟩ := abs_row f _ _ h4
+  have e5 := decReqs_ok h5
+  simp [funcType, members, get_of_field h1, get_of_field h3, encTy, e1, e2, e3, e4, e5, encStrs,
+    bind, Except.bind, pure, Except.pure]
+
+/-- `PolyFuncType` member -/
+theorem abs_poly (f : Nat) (j : Json) (t : Ty) (h : decPoly f j = .ok t) :
+    ∃ ps i o r, t = .poly ps i o r ∧ encTy (.poly ps i o r) = .ok (poly f true j) ∧
+      encTy (.poly ps i o []) = .ok (poly f false j) ∧ ps.length = (items (get "params" (members j))).length ∧
+      encTy (.function i o r) = .ok (funcType f true (get "body" (members j))) := by
+  unfold decPoly at h
+  simp only [OpProofs.bind_eq_ok, OpProofs.pure_eq_ok] at h
+  obtain ⟨kvs, hj, jp, h1, js, h2, ps, h3, jb, h4, ⟨i, o, r⟩, h5, rfl⟩ := h
+  rw [asObj_ok] at hj
+  rw [req_ok] at h1 h4
+  rw [asArr_ok] at h2
+  subst hj h2
+  obtain ⟨e1, e2⟩ := abs_funcType f jb i o r h5
+  have e3 := abs_params f js ps h3
+  have e4 := mapM_ok_length _ _ _ h3
+  refine ⟨ps, i, o, r, rfl, ?_, ?_, ?_, ?_⟩
+  · simp only [encTy] at e1 ⊢
+    simp only [OpProofs.bind_eq_ok, OpProofs.pure_eq_ok] at e1
+    obtain ⟨a, ha, b, hb, hab⟩ := e1
+    simp [poly, members, get_of_field h1, get_of_field h4, items, e3, ha, hb, ← hab, bind, Except.bind, pure, Except.pure]
+  · simp only [encTy] at e2 ⊢
+    simp only [OpProofs.bind_eq_ok, OpProofs.pure_eq_ok] at e2
+    obtain ⟨a, ha, b, hb, hab⟩ := e2
+    simp [poly, members, get_of_field h1, get_of_field h4, items, e3, ha, hb, ← hab, bind, Except.bind, pure, Except.pure]
+  · simp [members, get_of_field h1, items, e4]
+  · simp [members, get_of_field h4, e1]
 
 end HugrVerif.Proj
